@@ -40,6 +40,12 @@ func (h *RefreshFunc) Final(ctx *sqlite.AggregateContext) {
 		ctx.ResultError(fmt.Errorf("table not found: %s", fCtx.tableName))
 		return
 	}
+	if vt.Tree != nil && vt.Tree.Root != nil && vt.Tree.Root.IsDirty() {
+		// replacing a tree with uncommitted writes would drop them silently, and the
+		// abandoned dirty tree panics the process when it is garbage-collected
+		ctx.ResultError(fmt.Errorf("s3db_refresh: %s has uncommitted changes; COMMIT or ROLLBACK first", fCtx.tableName))
+		return
+	}
 	nt, err := s3db.OpenKV(h.sc.ctx, vt.S3Options, "s3db-rows")
 	if err != nil {
 		ctx.ResultError(fmt.Errorf("open: %w", err))
